@@ -362,7 +362,7 @@ theorem networkCode_refines (directed : Bool) (starts ends : List β) (weights :
     (∀ l, s.idx_map.lookup l = if l ∈ net.labels then some (net.labels.idxOf l) else none) ∧
     (∀ a v, s.outA a v = net.out a v) ∧
     (directed = true → ∀ a v, s.innA a v = net.inn a v) ∧
-    s.nedges = net.nedges ∧ s.nvertices = net.nV := by
+    s.nedges = net.nedges ∧ s.nvertices = net.nV ∧ (directed = false → ∀ a v, s.innA a v = []) := by
   intro net
   -- the invariant after `n` records
   have key : ∀ n, n ≤ starts.length →
@@ -478,7 +478,7 @@ theorem networkCode_refines (directed : Bool) (starts ends : List β) (weights :
   rw [if_pos hnL]
   rw [hLfin] at k1
   rw [htk] at k2 k3 k4
-  refine ⟨k1.1, k1.2, fun a v => ?_, fun hd a v => ?_, ?_, ?_⟩
+  refine ⟨k1.1, k1.2, fun a v => ?_, fun hd a v => ?_, ?_, ?_, fun hd a v => ?_⟩
   · rw [k2 a v]; rfl
   · rw [k3 a v]; simp [hd]; rfl
   · rw [k4]; rfl
@@ -486,6 +486,7 @@ theorem networkCode_refines (directed : Bool) (starts ends : List β) (weights :
     have : ¬ net.nL = 0 := Nat.pos_iff_ne_zero.1 hnL
     simp only [this, if_false]
     rw [k1.1 0 hnL]
+  · rw [k3 a v]; simp [hd]
 
 theorem foldl_filter_append (l : List Nat) (c : Nat → Bool) (acc : List Nat) :
     l.foldl (fun acc i => if c i then acc ++ [i] else acc) acc = acc ++ l.filter c := by
